@@ -50,8 +50,10 @@ func evalC03(op string, args []string) string {
 		}
 		return "ok " + hx(w)
 	case "authresp":
+		priorVariants([][]byte{unhx(args[0]), unhx(args[1]), unhx(args[2])}, func(v [][]byte) { radius.IsAuthenticResponse(v[0], v[1], v[2]) })
 		return boolStr(radius.IsAuthenticResponse(unhx(args[0]), unhx(args[1]), unhx(args[2])))
 	case "authreq":
+		priorVariants([][]byte{unhx(args[0]), unhx(args[1])}, func(v [][]byte) { radius.IsAuthenticRequest(v[0], v[1]) })
 		return boolStr(radius.IsAuthenticRequest(unhx(args[0]), unhx(args[1])))
 	case "exchange":
 		req := mkPacket(args[0], args[1], args[2], args[3], args[4])
@@ -388,6 +390,7 @@ func evalC04(op string, args []string) string {
 	case "newup":
 		pt, sec, ra := unhx(args[0]), unhx(args[1]), unhx(args[2])
 		changed := reusedBuffers(func() { radius.NewUserPassword(pt, sec, ra) }, pt, sec, ra)
+		priorVariants([][]byte{pt, sec, ra}, func(v [][]byte) { radius.NewUserPassword(v[0], v[1], v[2]) })
 		a, err := radius.NewUserPassword(pt, sec, ra)
 		if changed() {
 			return "arguments-changed"
@@ -399,6 +402,7 @@ func evalC04(op string, args []string) string {
 	case "up":
 		ct, sec, ra := unhx(args[0]), unhx(args[1]), unhx(args[2])
 		changed := reusedBuffers(func() { radius.UserPassword(ct, sec, ra) }, ct, sec, ra)
+		priorVariants([][]byte{ct, sec, ra}, func(v [][]byte) { radius.UserPassword(v[0], v[1], v[2]) })
 		p, err := radius.UserPassword(ct, sec, ra)
 		if changed() {
 			return "arguments-changed"
@@ -489,6 +493,7 @@ func evalC11(op string, args []string) string {
 	case "newtp":
 		pt, salt, sec, ra := unhx(args[0]), unhx(args[1]), unhx(args[2]), unhx(args[3])
 		changed := reusedBuffers(func() { radius.NewTunnelPassword(pt, salt, sec, ra) }, pt, salt, sec, ra)
+		priorVariants([][]byte{pt, salt, sec, ra}, func(v [][]byte) { radius.NewTunnelPassword(v[0], v[1], v[2], v[3]) })
 		a, err := radius.NewTunnelPassword(pt, salt, sec, ra)
 		if changed() {
 			return "arguments-changed"
@@ -500,6 +505,7 @@ func evalC11(op string, args []string) string {
 	case "tp":
 		ct, sec, ra := unhx(args[0]), unhx(args[1]), unhx(args[2])
 		changed := reusedBuffers(func() { radius.TunnelPassword(ct, sec, ra) }, ct, sec, ra)
+		priorVariants([][]byte{ct, sec, ra}, func(v [][]byte) { radius.TunnelPassword(v[0], v[1], v[2]) })
 		pw, salt, err := radius.TunnelPassword(ct, sec, ra)
 		if changed() {
 			return "arguments-changed"
